@@ -1872,7 +1872,48 @@ func ruleSignRound(c *Ctx, rule string) {
 					}
 				}
 				walk(cv.X, 0)
+				// when the half is chosen by a test, the test must be on the sign of the value being rounded
+				wrongTest := ""
+				if plus && minus && !round {
+					// the phi that joins value+0.5 and value-0.5
+					var halfPhi *ssa.Phi
+					for v := range seen {
+						if phi, ok := v.(*ssa.Phi); ok {
+							halves := 0
+							for _, e := range phi.Edges {
+								if bo, ok := e.(*ssa.BinOp); ok {
+									if k, ok := bo.Y.(*ssa.Const); ok && k.Value != nil && k.Value.ExactString() == "1/2" {
+										halves++
+									}
+								}
+							}
+							if halves == 2 && len(phi.Edges) == 2 {
+								halfPhi = phi
+							}
+						}
+					}
+					if phi := halfPhi; phi != nil {
+						var val ssa.Value
+						for _, e := range phi.Edges {
+							if bo, ok := e.(*ssa.BinOp); ok {
+								val = bo.X
+							}
+						}
+						for _, p := range phi.Block().Preds {
+							for d := p; d != nil; d = d.Idom() {
+								if ifi, ok := d.Instrs[len(d.Instrs)-1].(*ssa.If); ok {
+									if bo, ok := ifi.Cond.(*ssa.BinOp); ok && val != nil && bo.X != val && bo.Y != val {
+										wrongTest = symName(bo.X, nil)
+									}
+									break
+								}
+							}
+						}
+					}
+				}
 				switch {
+				case wrongTest != "":
+					c.bad(rule, key, cv.Pos(), "the half added before truncation is chosen by a test on "+wrongTest+", not on the sign of the value being rounded: negative values then get +0.5 and are rounded towards zero (−5.87 becomes −5), so the low entries of the conversion are not the analytic value rounded to nearest")
 				case round || (plus && minus):
 					c.ok(rule, key, cv.Pos(), "rounded to nearest symmetrically before the truncating conversion")
 				case plus:
